@@ -19,7 +19,9 @@ RULE = (
     "pickle that only *its* protection objects to (check: a SUSPICIOUS call of the allow-listed "
     "collections.OrderedDict; ml: a bare reference to datetime.date, which the check rates "
     "LIKELY_SAFE), so that one protection standing in for the other is seen; __exit__ must not "
-    "swallow exceptions. Any lifecycle operation may run on a worker thread that is joined at once (a block "
+    "swallow exceptions. A protected load binding is also handed a stream positioned behind a flagged pickle (nothing in front of the "
+    "position may run); managers given the top of the severity scale as threshold are entered too (not probed inside, "
+    "what leaving restores is). Any lifecycle operation may run on a worker thread that is joined at once (a block "
     "entered on one thread and left on another): the history stays one sequence. Non-trivial = history nests a context inside another protection, leaves "
     "by exception, or arms two families; distinct = distinct histories."
     ' Also: a pickle calling each addable name the current activation did not add must be refused'
@@ -76,6 +78,13 @@ class Model:
         self.stack.append(self.b["pickle.load"])
         self.b["pickle.load"] = "check"
 
+    def enter_lenient(self):
+        # a block whose manager was given the top of the severity scale as its threshold: some
+        # check is in force, how much it still refuses is the implementation's business - not
+        # probed; what counts is what leaving it restores
+        self.stack.append(self.b["pickle.load"])
+        self.b["pickle.load"] = "lenient"
+
     def leave(self):
         self.b["pickle.load"] = self.stack.pop()
 
@@ -99,6 +108,27 @@ def probe(name, data=FLAGGED):
         out = ("error", repr(e))
     verif_sink.reset()
     return out
+
+
+def probe_offset(name):
+    """a stream that holds a flagged pickle first and is handed over positioned behind it, on a
+    harmless one: None, or what went wrong"""
+    import verif_sink
+
+    fn = get_binding(name)
+    verif_sink.reset()
+    stream = io.BytesIO(FLAGGED + b"N.")
+    stream.seek(len(FLAGGED))
+    try:
+        fn(stream)
+    except Exception:  # noqa: BLE001 - refusing is fine; running what lies in front is not
+        pass
+    ran = list(verif_sink.LOG)
+    verif_sink.reset()
+    if ran:
+        return (f"a stream positioned behind a flagged pickle (on a harmless one) was loaded through {name}: the "
+                f"flagged pickle in front of the position ran {ran!r}")
+    return None
 
 
 CANARY = b"cverif_canary\nfire\n."  # importable, not imported: resolving it would run its module code
@@ -193,6 +223,22 @@ def step(model, ctxs, st, spare=None):
         call(c.__enter__)
         ctxs.append(c)
         model.enter()
+    elif kind == "enter_lenient":
+        from fickling.analysis import Severity
+        from fickling.context import FicklingContextManager
+
+        c = FicklingContextManager(max_acceptable_severity=Severity.OVERTLY_MALICIOUS)
+        c._verif_lenient = True
+        call(c.__enter__)
+        ctxs.append(c)
+        model.enter_lenient()
+    elif kind == "create_lenient":
+        from fickling.analysis import Severity
+        from fickling.context import FicklingContextManager
+
+        c = FicklingContextManager(max_acceptable_severity=Severity.OVERTLY_MALICIOUS)
+        c._verif_lenient = True
+        spare.append(c)
     elif kind == "create":
         # a manager object made now and entered later (possibly after the protection changed)
         spare.append(fickling.check_safety())
@@ -201,14 +247,14 @@ def step(model, ctxs, st, spare=None):
             c = spare.pop(0)
             call(c.__enter__)
             ctxs.append(c)
-            model.enter()
+            model.enter_lenient() if getattr(c, "_verif_lenient", False) else model.enter()
     elif kind == "reenter":
         # the manager of the innermost open block is entered again (and left again later)
         if ctxs:
             c = ctxs[-1]
             call(c.__enter__)
             ctxs.append(c)
-            model.enter()
+            model.enter_lenient() if getattr(c, "_verif_lenient", False) else model.enter()
     elif kind == "leave":
         c = ctxs.pop()
         r = call(c.__exit__, None, None, None)
@@ -233,6 +279,8 @@ def step(model, ctxs, st, spare=None):
         if state == "orig":
             if cur is not env.PICKLE_ORIG[i]:
                 return f"{n} should be the original function again but is {cur!r}"
+        elif state == "lenient":
+            continue
         else:
             got, detail = probe(n)
             if got != "refused":
@@ -240,6 +288,10 @@ def step(model, ctxs, st, spare=None):
                     f"{n} should be protected ({state}) but a flagged pickle through it was {got} "
                     f"{detail or ''}"
                 )
+            if n.endswith(".load"):
+                msg = probe_offset(n)
+                if msg:
+                    return f"{n} is protected ({state}) but {msg}"
             import sys
 
             for m in [m for m in sys.modules if m.split(".")[0] == "verif_canary"]:
@@ -321,7 +373,7 @@ def _machine(res, holder):
             self.next_threaded = False
 
         def _do(self, stp):
-            if self.next_threaded and stp[0] not in ("probe", "create"):
+            if self.next_threaded and stp[0] not in ("probe", "create", "create_lenient"):
                 stp = (stp[0] + "@t",) + tuple(stp[1:])
                 self.next_threaded = False
                 self.feat.add("other-thread")
@@ -364,6 +416,17 @@ def _machine(res, holder):
         @rule()
         def create(self):
             self._do(("create",))
+
+        @precondition(lambda self: len(self.spare) < 2)
+        @rule()
+        def create_lenient(self):
+            self._do(("create_lenient",))
+
+        @precondition(lambda self: len(self.ctxs) < 3)
+        @rule()
+        def enter_lenient(self):
+            self.feat.add("lenient-manager")
+            self._do(("enter_lenient",))
 
         @precondition(lambda self: self.spare and len(self.ctxs) < 3)
         @rule()
